@@ -79,6 +79,49 @@ theorem applyLocationDC_equivariant_ne {α} (f : WinFn α) (φo φh φx ψ : α 
   exact runLoop_map _ _ ψ _ _ (fun c hc =>
     windowWritesDC_equivariant_at f φo φh φx ψ L S dO dH dF obs hist fut c (hf _ _ _ _ _ _ (hne c hc)))
 
+/-- **Lift (running-window loop), per-centre form**: the per-window law is required exactly at the window samples
+    the loop forms (ISIMIP: the law needs non-empty samples and the years of the window) -/
+theorem applyLocationRW_equivariant_at {α} (f : WinFn α) (φo φh φx ψ : α → α) (L S : Int) (dO dH dF : List Int)
+    (obs hist fut : List α)
+    (hf : ∀ c ∈ useCenters S dF,
+      f ((take obs (idxWindow L dO c)).map φo) ((take hist (idxWindow L dH c)).map φh)
+        ((take fut (idxWindow L dF c)).map φx) (idxWindow L dO c) (idxWindow L dH c) (idxWindow L dF c) =
+      (f (take obs (idxWindow L dO c)) (take hist (idxWindow L dH c)) (take fut (idxWindow L dF c))
+        (idxWindow L dO c) (idxWindow L dH c) (idxWindow L dF c)).map (List.map ψ)) :
+    applyLocationRW f L S dO dH dF (obs.map φo) (hist.map φh) (fut.map φx) =
+      (applyLocationRW f L S dO dH dF obs hist fut).map (List.map (Option.map ψ)) := by
+  unfold applyLocationRW
+  rw [List.length_map]
+  exact runLoop_map _ _ ψ _ _ (fun c hc =>
+    windowWrites_equivariant_at f φo φh φx ψ L S dO dH dF obs hist fut c (hf c hc))
+
+/-- the index lists of ISIMIP's month mode -/
+def monthIdx (ms : List Int) (m : Int) : List Nat := Py.whereTrue (ms.map (fun x => decide (x = m)))
+
+/-- **Lift (ISIMIP month mode), per-month form** -/
+theorem applyLocationMonths_equivariant_at {α} (f : WinFn α) (φo φh φx ψ : α → α) (mO mH mF : List Int)
+    (obs hist fut : List α)
+    (hf : ∀ m ∈ Py.arange1 1 13,
+      f ((take obs (monthIdx mO m)).map φo) ((take hist (monthIdx mH m)).map φh) ((take fut (monthIdx mF m)).map φx)
+        (monthIdx mO m) (monthIdx mH m) (monthIdx mF m) =
+      (f (take obs (monthIdx mO m)) (take hist (monthIdx mH m)) (take fut (monthIdx mF m))
+        (monthIdx mO m) (monthIdx mH m) (monthIdx mF m)).map (List.map ψ)) :
+    applyLocationMonths f mO mH mF (obs.map φo) (hist.map φh) (fut.map φx) =
+      (applyLocationMonths f mO mH mF obs hist fut).map (List.map (Option.map ψ)) := by
+  unfold applyLocationMonths
+  rw [List.length_map]
+  apply runLoop_map _ _ ψ
+  intro m hm
+  have h := hf m hm
+  unfold monthIdx at h
+  unfold monthWrites
+  simp only [take_map, h, bind, Except.bind]
+  cases f (take obs (Py.whereTrue (mO.map (fun x => decide (x = m))))) (take hist (Py.whereTrue (mH.map (fun x => decide (x = m)))))
+      (take fut (Py.whereTrue (mF.map (fun x => decide (x = m))))) (Py.whereTrue (mO.map (fun x => decide (x = m))))
+      (Py.whereTrue (mH.map (fun x => decide (x = m)))) (Py.whereTrue (mF.map (fun x => decide (x = m)))) with
+  | error e => rfl
+  | ok res => simp only [Except.map, pairsFor_map]
+
 /-- every future window sample of the running-window loop is non-empty: a centre yielded by `use` adjusts a step,
     and the steps a centre adjusts lie in its window (`S ≤ L`, days of year in `1..366`) -/
 theorem futureWindow_ne_nil {α} (L S : Int) (dF : List Int) (fut : List α)
